@@ -915,6 +915,25 @@ def make_history(rng, mode, quick=True):
             break
     path = gen.rand_path(rng, len(inputs))
     ops = gen_ops(rng, inputs, output, size_dict, rng.randint(3, 10), mode)
+    if rng.random() < 0.3:
+        # directed template: an explicit index order is installed, recipes are cached by a
+        # contraction, then an index is removed / restored, then the tree is contracted again
+        # (stale recipes on the ancestors of re-ordered nodes); equal dimensions, so that a
+        # wrong axis order gives a wrong value rather than a shape error
+        d = rng.choice([2, 3])
+        size_dict = {k: d for k in size_dict}
+        allix = sorted({ix for t in inputs for ix in t})
+        con = lambda: {"kind": "contract", "order": rng.choice(["dfs", None]), "prefer_einsum": rng.random() < 0.5,
+                       "implementation": rng.choice([None, "cotengra", "autoray"]), "oseed": rng.randrange(1000)}
+        ops = [{"kind": "sort_inds", "priority": rng.choice(["flops", "size", "root", "leaves"]),
+                "moc": rng.random() < 0.7, "mcc": rng.random() < 0.7, "reset": True}, con()]
+        for ix in rng.sample(allix, min(len(allix), rng.randint(1, 3))):
+            ops.append({"kind": "remove_ind", "ind": ix,
+                        "project": (rng.randrange(d) if rng.random() < 0.3 else None), "inplace": True})
+            ops.append(con())
+        if rng.random() < 0.5:
+            ops.append({"kind": "restore_ind", "which": rng.randrange(8), "inplace": True})
+            ops.append(con())
     return {"inputs": [list(t) for t in inputs], "output": list(output), "size_dict": size_dict,
             "path": [list(p) for p in path], "ops": ops, "aseed": rng.randrange(1000),
             "probe": rng.choice(["direct", "copy"])}
